@@ -28,11 +28,13 @@ CHECKS = {
         note='Lists are atomic values; nested differing priority tags on one path are out of the stated domain.',
         design='4/C03'),
     'C04': dict(
-        technique='property-based differential testing (Hypothesis): four sub-domains with direct oracles (exact content, strictly-higher-priority survivors, key-/index-wise combination, !clear / value-less !del)',
+        technique='property-based differential testing (Hypothesis): five sub-domains with direct oracles (exact content, strictly-higher-priority survivors, key-/index-wise combination, !clear / value-less !del, protected list elements as a validity predicate)',
         text='Older tree x newer document with one focus node at depth 0-3 along existing keys (key names biased to coincide with ancestor '
              'names): deleting focus leaves exactly its content (pruned !call nodes must not run), protected older entries survive exactly when '
              'strictly higher in priority, !merge combines key-/index-wise under the documented flag inheritance, !clear empties, value-less !del removes.',
-        note='Direct per-sub-domain oracles instead of a full merge model; overlaps the statement leaves open are skipped and counted.',
+        note='Direct per-sub-domain oracles instead of a full merge model; overlaps the statement leaves open are skipped and counted. '
+             'Open known finding list-element-survivor-shift (lists with some !force elements lose un-outranked newer elements), attributed only '
+             'when the result equals the modelled index-shift behaviour and the root-cause probe saw a partial list removal.',
         design='4/C04'),
     'C05': dict(
         technique='property-based metamorphic testing (Hypothesis): build(D_i) vs build({k..: D_i}) vs build with unrelated sibling content',
